@@ -49,6 +49,7 @@ type Reply struct {
 	Uid   string
 	H     int64
 	Ctr   int64 // "sent": the issuing instance's issue counter when the response was issued
+	Pad   string `json:",omitempty"`
 }
 
 // PushBody is the payload of harness pushes.
@@ -124,6 +125,14 @@ func (h *H) Sentinel(ctx *impls.HandlerContext, a *Arg, cb apientry.HandlerCBFun
 func (h *H) Echo(ctx *impls.HandlerContext, a *Arg, cb apientry.HandlerCBFunc) {
 	s := h.n.logInvocation(ctx, "echo", a.T)
 	apientry.CheckInvokeCBFunc(cb, nil, h.reply(ctx, s, "echo", a))
+}
+
+// Big answers like Echo with a reply padded to about Pad bytes.
+func (h *H) Big(ctx *impls.HandlerContext, a *Arg, cb apientry.HandlerCBFunc) {
+	s := h.n.logInvocation(ctx, "big", a.T)
+	r := h.reply(ctx, s, "echo", a)
+	r.Pad = strings.Repeat("x", a.Pad)
+	apientry.CheckInvokeCBFunc(cb, nil, r)
 }
 
 // Fail completes with an error.
